@@ -16,6 +16,10 @@ What is pinned
     model mirrors by hand: `_table_is_free`, `sort_dependencies`, `add_after_statements`,
     `_index_by_sobject`, `load_steps_from_tableinfos`, `remove_person_contact_id`, `build_dependencies`.
     A change of any of them changes the generated file and breaks the bridging lemma that quotes it.
+  * the frame of `TableInfo.fields`: a scan of the whole package (outside parse_recipe_yaml.py) for uses of a
+    `.fields` attribute that are not syntactically read-only (rebind, item store/delete, mutating method,
+    alias / argument / return). The mapping generator reads `TableInfo.fields` long after parsing; anything
+    in between that writes into it (e.g. an output stream building its header in place) changes the mapping.
 """
 import ast
 
@@ -80,6 +84,89 @@ def startswith_prefixes(node, receiver_suffix):
 
 def namedtuple_fields(cls):
     return [s.target.id for s in cls.body if isinstance(s, ast.AnnAssign) and isinstance(s.target, ast.Name)]
+
+
+# ------------------------------------------------------------------ frame: who touches a `.fields` attribute
+_READ_METHODS = {"keys", "items", "values", "get", "copy", "__contains__", "__iter__", "__len__"}
+_WRAP_FUNCS = {"list", "tuple", "dict", "len", "sorted", "set", "frozenset", "iter", "enumerate", "any", "all",
+               "bool", "str", "repr"}
+
+
+def fields_uses_not_read_only(tree, relname):
+    """Every use of an attribute named `fields` that is not syntactically read-only: rebinding, item store /
+    delete, a method call other than keys/items/values/get/copy, or the object escaping (aliased by an
+    assignment, passed as an argument, returned). Over-approximates on purpose (any class's `.fields`)."""
+    parents = {}
+    for n in ast.walk(tree):
+        for c in ast.iter_child_nodes(n):
+            parents[c] = n
+
+    def func_of(n):
+        names = []
+        while n in parents:
+            n = parents[n]
+            if isinstance(n, (ast.FunctionDef, ast.ClassDef, ast.AsyncFunctionDef)):
+                names.append(n.name)
+        return ".".join(reversed(names)) or "<module>"
+
+    def stmt_of(n):
+        while n in parents and not isinstance(n, ast.stmt):
+            n = parents[n]
+        return n
+
+    out = []
+    for n in ast.walk(tree):
+        if not (isinstance(n, ast.Attribute) and n.attr == "fields"):
+            continue
+        par = parents.get(n)
+        kind = None
+        if isinstance(n.ctx, (ast.Store, ast.Del)):
+            kind = "rebind"
+        elif isinstance(par, ast.Attribute) and par.value is n:
+            gp = parents.get(par)
+            if isinstance(gp, ast.Call) and gp.func is par:
+                kind = None if par.attr in _READ_METHODS else f"call .{par.attr}()"
+            else:
+                kind = f"attribute .{par.attr}"
+        elif isinstance(par, ast.Subscript) and par.value is n:
+            kind = None if isinstance(par.ctx, ast.Load) else "item store/delete"
+        elif isinstance(par, ast.Call) and n in par.args and isinstance(par.func, ast.Name) \
+                and par.func.id in _WRAP_FUNCS:
+            kind = None
+        elif isinstance(par, ast.Compare) and n in par.comparators:
+            kind = None
+        elif isinstance(par, (ast.For, ast.comprehension)) and par.iter is n:
+            kind = None
+        elif isinstance(par, (ast.Starred, ast.FormattedValue)):
+            kind = None
+        elif isinstance(par, ast.Dict) and n in par.values and par.keys[par.values.index(n)] is None:
+            kind = None  # {**x.fields}
+        else:
+            kind = "escapes (alias / argument / return)"
+        if kind:
+            first = ast.unparse(stmt_of(n)).splitlines()[0][:110]
+            out.append(f"{relname}:{func_of(n)}: {kind}: {first}")
+    return out
+
+
+def scan_fields_uses(exclude=("snowfakery/parse_recipe_yaml.py",)):
+    import os
+    from tools.py2lean import REPO
+
+    out = []
+    base = os.path.join(REPO, "snowfakery")
+    if not os.path.isdir(base):
+        raise PinError("snowfakery package not found")
+    for root, dirs, files in os.walk(base):
+        dirs.sort()
+        for f in sorted(files):
+            if not f.endswith(".py"):
+                continue
+            rel = os.path.relpath(os.path.join(root, f), REPO)
+            if rel in exclude:
+                continue
+            out += fields_uses_not_read_only(parse(rel), rel)
+    return out
 
 
 @group("MappingGen", "snowfakery/generate_mapping_from_recipe.py", ["C16"])
@@ -226,4 +313,8 @@ def _mapping_gen(tree):
     out += ldef("hiddenPrefixes", p1 + p2 + p3 + p4,
                 "TableInfo.register (fields), parse_recipe (tables), _generate_row (rows), filter_row_values_normal (fields)")
     out += ldef("tableInfoRegisterSource", body_lines(ti))
+    # ---------------------------------------------------------------- frame: TableInfo.fields after parsing
+    out += ldef("fieldsUsesOutsideParser", scan_fields_uses(),
+                "every not syntactically read-only use of an attribute `.fields` in snowfakery/**.py outside "
+                "parse_recipe_yaml.py (file:function: kind: statement)")
     return out
